@@ -5,7 +5,10 @@ import (
 	"bufio"
 	"bytes"
 	"fmt"
+	"io"
 	"reflect"
+	"strconv"
+	"strings"
 	"testing"
 
 	"github.com/mandykoh/prism/meta/icc"
@@ -31,6 +34,31 @@ type Case struct {
 	BufSize     int    `json:"buf_size,omitempty"`   // icc only
 	Seekable    bool   `json:"seekable,omitempty"`   // the scheduled source also implements io.Seeker
 	ZeroEvery   int    `json:"zero_every,omitempty"` // every n-th read returns (0, nil)
+	// Wrap: the scheduled source reaches the loader through a standard wrapper, as callers' sources do:
+	// "bufio:<n>" (a *bufio.Reader of that size), "limit" (io.LimitReader), "multi" (io.MultiReader of the first
+	// 5 bytes and the rest), "tee" (io.TeeReader into a discarded buffer), "nop" (io.NopCloser)
+	Wrap string `json:"wrap,omitempty"`
+}
+
+var wraps = []string{"bufio:16", "bufio:64", "bufio:100", "bufio:4096", "bufio:4097", "bufio:8192", "bufio:65536", "limit", "multi", "tee", "nop"}
+
+func wrap(kind string, r io.Reader) io.Reader {
+	switch {
+	case strings.HasPrefix(kind, "bufio:"):
+		n, _ := strconv.Atoi(kind[6:])
+		return bufio.NewReaderSize(r, n)
+	case kind == "limit":
+		return io.LimitReader(r, 1<<40)
+	case kind == "multi":
+		head := make([]byte, 5)
+		n, _ := io.ReadFull(r, head)
+		return io.MultiReader(bytes.NewReader(head[:n]), r)
+	case kind == "tee":
+		return io.TeeReader(r, io.Discard)
+	case kind == "nop":
+		return io.NopCloser(r)
+	}
+	return r
 }
 
 type iccOutcome struct {
@@ -82,7 +110,9 @@ func check(c Case) (kind, what string, nt bool) {
 	}
 	ref := ld.Run(c.Target, bytes.NewReader(c.Data))
 	var got ld.Outcome
-	if c.Seekable {
+	if c.Wrap != "" {
+		got = ld.Run(c.Target, wrap(c.Wrap, s))
+	} else if c.Seekable {
 		got = ld.Run(c.Target, src.Seekable{Source: s})
 	} else {
 		got = ld.Run(c.Target, s)
@@ -90,7 +120,11 @@ func check(c Case) (kind, what string, nt bool) {
 	nt = s.MultiCall || s.ShortCalls > 0
 	if !ld.Same(ref, got) {
 		k := c.Target + "/differs"
-		return k, fmt.Sprintf("%s loader, schedule %v eof-with-data=%v: %s; all-at-once delivery: %s (%s)", c.Target, c.Sizes, c.DataWithEOF, got, ref, c.Desc) + zeroNote(c), nt
+		via := ""
+		if c.Wrap != "" {
+			via = " behind " + c.Wrap
+		}
+		return k, fmt.Sprintf("%s loader%s, schedule %v eof-with-data=%v: %s; all-at-once delivery: %s (%s)", c.Target, via, c.Sizes, c.DataWithEOF, got, ref, c.Desc) + zeroNote(c), nt
 	}
 	return "", "", nt
 }
@@ -113,7 +147,7 @@ func TestC08(t *testing.T) {
 		fmt.Println("REPLAY case passed")
 		return
 	}
-	ev.Rule("inputs: every repository image and profile, grammar-built seeds (incl. profiles > 4 KiB), hostile mini-files, rapid-generated valid files (ICC up to 70 KB, chunk headers straddling 4096*k), rapid structure-aware mutations and truncations of all of these, a quarter followed by trailing zeros, junk or another file. Schedules per input: fixed segment sizes 1,2,3,7,8,4095,4096,4097, a first read ending at each structure boundary followed by one piece or by a 4096/8192/65536-byte piece and crumbs, rapid size lists, final data together with EOF, every n-th read returning (0, nil); for the ICC reader bufio readers of size 16/64/4096/65536 in front of the scheduled source. Oracle (metamorphic): outcome tuple == outcome under all-at-once delivery from bytes.Reader. non-trivial = distinct (input, schedule) whose source delivered the input in >= 2 calls or returned a short count")
+	ev.Rule("inputs: every repository image and profile, grammar-built seeds (incl. profiles > 4 KiB), hostile mini-files, rapid-generated valid files (ICC up to 70 KB, chunk headers straddling 4096*k), rapid structure-aware mutations and truncations of all of these, a quarter followed by trailing zeros, junk or another file. Schedules per input: fixed segment sizes 1,2,3,7,8,4095,4096,4097, a first read ending at each structure boundary followed by one piece or by a 4096/8192/65536-byte piece and crumbs, rapid size lists, final data together with EOF, every n-th read returning (0, nil); for the ICC reader bufio readers of size 16/64/4096/65536 in front of the scheduled source; for the loaders a quarter of the cases behind a standard wrapper (bufio.Reader of 16..65536 bytes, io.LimitReader, io.MultiReader, io.TeeReader, io.NopCloser). Oracle (metamorphic): outcome tuple == outcome under all-at-once delivery from bytes.Reader. non-trivial = distinct (input, schedule) whose source delivered the input in >= 2 calls or returned a short count")
 	ev.Assume("error text is not compared, only success/error and values; a source returns (0, nil) only when the case says so (every n-th read, n >= 2, never twice in a row - what io.Reader calls 'nothing happened')")
 	all := append(seeds.All(), seeds.Hostile()...)
 	bad := map[string]bool{}
@@ -145,6 +179,7 @@ func TestC08(t *testing.T) {
 				run(Case{Desc: sd.Name, Data: sd.Data, Target: target, Sizes: sc, DataWithEOF: si%2 == 0, Seekable: true})
 				run(Case{Desc: sd.Name, Data: sd.Data, Target: target, Sizes: sc, DataWithEOF: si%2 == 1, ZeroEvery: 2 + si%3})
 				run(Case{Desc: sd.Name + " + 1 trailing byte", Data: append(append([]byte(nil), sd.Data...), 0x55), Target: target, Sizes: sc, DataWithEOF: si%2 == 0})
+				run(Case{Desc: sd.Name, Data: sd.Data, Target: target, Sizes: sc, DataWithEOF: si%2 == 1, Wrap: wraps[(si+len(sd.Data))%len(wraps)]})
 			}
 		}
 	}
@@ -284,6 +319,9 @@ func TestC08(t *testing.T) {
 		}
 		c.DataWithEOF = rapid.Bool().Draw(rt, "dataeof")
 		c.Seekable = rapid.IntRange(0, 2).Draw(rt, "seekable") == 0
+		if c.Target != "icc" && rapid.IntRange(0, 3).Draw(rt, "wrapped") == 0 {
+			c.Wrap = rapid.SampledFrom(wraps).Draw(rt, "wrap")
+		}
 		if rapid.IntRange(0, 3).Draw(rt, "zeroreads") == 0 {
 			c.ZeroEvery = rapid.SampledFrom([]int{2, 3, 5, 10}).Draw(rt, "zeroevery")
 		}
